@@ -397,6 +397,16 @@ enum LeafKind {
     /// a 2-dimensional tensor with the given shape seen as a matrix through `MatrixRefTensor`,
     /// directly or (swapped) through a `TensorAccess` in the order second name, first name
     Tensor([(&'static str, usize); 2], bool),
+    /// the `MatrixPart` at grid position (kr, kc) of `Matrix::partition(rp, cp)` of a row-major
+    /// matrix of the leaf size (the matrix itself is leaked: the part borrows it)
+    Part(&'static [usize], &'static [usize], usize, usize),
+}
+
+/// the part at grid position (kr, kc) of a partition of `*m`
+fn part_of<T: 'static>(m: &'static mut Matrix<T>, rp: &[usize], cp: &[usize], kr: usize, kc: usize) -> Box<dyn MatrixMut<T>> {
+    let k = kr * (cp.len() + 1) + kc;
+    let part = m.partition(rp, cp).into_iter().nth(k).expect("part index");
+    Box::new(part.source())
 }
 
 /// a column-major source: `MatrixRefTensor` over a `TensorAccess` in (row, column) order of a
@@ -412,6 +422,10 @@ fn make_leaf<T: 'static>(kind: LeafKind, size: (usize, usize), data: Vec<T>) -> 
         LeafKind::Tensor(shape, true) => {
             let t = Tensor::from(shape, data);
             Box::new(MatrixRefTensor::from(TensorAccess::from(t, [shape[1].0, shape[0].0])))
+        }
+        LeafKind::Part(rp, cp, kr, kc) => {
+            let m: &'static mut Matrix<T> = Box::leak(Box::new(Matrix::from_flat_row_major(size, data)));
+            part_of(m, rp, cp, kr, kc)
         }
     }
 }
@@ -822,6 +836,23 @@ impl Runner {
                     }
                     format!("ok size={}x{}", r, c)
                 }
+                "pmatrix" => {
+                    self.fill = opt_arg("fill", toks).unwrap_or("id").to_string();
+                    let (r, c): (usize, usize) = (toks[2].parse().unwrap(), toks[3].parse().unwrap());
+                    let rp: &'static [usize] = Box::leak(parse_usizes(toks[4]).into_boxed_slice());
+                    let cp: &'static [usize] = Box::leak(parse_usizes(toks[5]).into_boxed_slice());
+                    let (kr, kc): (usize, usize) = (toks[6].parse().unwrap(), toks[7].parse().unwrap());
+                    self.leaf = (r, c);
+                    self.leaf_kind = LeafKind::Part(rp, cp, kr, kc);
+                    let data = fill_data(&self.fill, r * c);
+                    let kind = self.leaf_kind;
+                    let res = catch(move || make_leaf(kind, (r, c), data));
+                    answer(res, |m| {
+                        let s = format!("ok size={}x{}", m.view_rows(), m.view_columns());
+                        self.cur = Some(Cur::Mut(m));
+                        s
+                    })
+                }
                 "partition" => {
                     let (r, c): (usize, usize) = (toks[2].parse().unwrap(), toks[3].parse().unwrap());
                     self.partition_args = Some((r, c, parse_usizes(toks[4]), parse_usizes(toks[5]), via));
@@ -1094,6 +1125,16 @@ impl Runner {
                         };
                         (leaf, Box::new(move || {
                             let v: Vec<u64> = unsafe { (*ptr).iter().collect() };
+                            unsafe { drop(Box::from_raw(ptr)) };
+                            v
+                        }))
+                    }
+                    LeafKind::Part(rp, cp, kr, kc) => {
+                        let ptr: *mut Matrix<u64> =
+                            Box::into_raw(Box::new(Matrix::from_flat_row_major(self.leaf, before.clone())));
+                        let leaf: MDyn = part_of(unsafe { &mut *ptr }, rp, cp, kr, kc);
+                        (leaf, Box::new(move || {
+                            let v: Vec<u64> = unsafe { (*ptr).row_major_iter().collect() };
                             unsafe { drop(Box::from_raw(ptr)) };
                             v
                         }))
@@ -1449,6 +1490,49 @@ fn gen_ranges(g: &mut Gen) {
     }
 }
 
+/// `depth` random adaptors (range / reverse / tensor round trip) on top of the current view of
+/// size `vr × vc`; updates the size, answers the kinds
+fn gen_stack(g: &mut Gen, vr: &mut usize, vc: &mut usize, depth: usize) -> Vec<&'static str> {
+    let mut kinds = vec![];
+    for _ in 0..depth {
+        match g.rng.below(5) {
+            0 | 1 => {
+                let pick = |g: &mut Gen, size: usize| -> (usize, usize) {
+                    match g.rng.below(4) {
+                        0 => (*g.rng.pick(&range_values(size)), *g.rng.pick(&range_values(size))),
+                        1 => (g.rng.below(size + 1), MAX),
+                        _ => {
+                            let s = g.rng.below(size + 1);
+                            (s, g.rng.range(0, size + 1 - s))
+                        }
+                    }
+                };
+                let (r, c) = (pick(g, *vr), pick(g, *vc));
+                let via = range_via(g, r, c);
+                g.op(format!("mrange {}:{} {}:{} via={}", r.0, r.1, c.0, c.1, via));
+                *vr = clipped(r.0, r.1, *vr);
+                *vc = clipped(c.0, c.1, *vc);
+                kinds.push("range");
+            }
+            2 | 3 => {
+                let (a, b) = (g.rng.below(2), g.rng.below(2));
+                let via = *g.rng.pick(&REVERSE_VIAS);
+                g.op(format!("mreverse {} {} via={}", a, b, via));
+                g.count(&format!("mreverse.via.{}", via));
+                kinds.push("reverse");
+            }
+            _ => {
+                g.op("roundtrip".to_string());
+                if *vr == 0 || *vc == 0 {
+                    g.count("roundtrip.refused_on_empty_view");
+                }
+                kinds.push("roundtrip");
+            }
+        }
+    }
+    kinds
+}
+
 fn gen_nested(g: &mut Gen) {
     let rounds = if g.thorough { 20000 } else { 800 };
     for _ in 0..rounds {
@@ -1457,49 +1541,66 @@ fn gen_nested(g: &mut Gen) {
         g.op(line);
         let (mut vr, mut vc) = (rows, cols);
         let depth = g.rng.range(1, 3);
-        let mut kinds = vec![];
-        for _ in 0..depth {
-            match g.rng.below(5) {
-                0 | 1 => {
-                    let pick = |g: &mut Gen, size: usize| -> (usize, usize) {
-                        match g.rng.below(4) {
-                            0 => (*g.rng.pick(&range_values(size)), *g.rng.pick(&range_values(size))),
-                            1 => (g.rng.below(size + 1), MAX),
-                            _ => {
-                                let s = g.rng.below(size + 1);
-                                (s, g.rng.range(0, size + 1 - s))
-                            }
-                        }
-                    };
-                    let (r, c) = (pick(g, vr), pick(g, vc));
-                    let via = range_via(g, r, c);
-                    g.op(format!("mrange {}:{} {}:{} via={}", r.0, r.1, c.0, c.1, via));
-                    vr = clipped(r.0, r.1, vr);
-                    vc = clipped(c.0, c.1, vc);
-                    kinds.push("range");
-                }
-                2 | 3 => {
-                    let (a, b) = (g.rng.below(2), g.rng.below(2));
-                    let via = *g.rng.pick(&REVERSE_VIAS);
-                    g.op(format!("mreverse {} {} via={}", a, b, via));
-                    g.count(&format!("mreverse.via.{}", via));
-                    kinds.push("reverse");
-                }
-                _ => {
-                    g.op("roundtrip".to_string());
-                    if vr == 0 || vc == 0 {
-                        g.count("roundtrip.refused_on_empty_view");
-                    }
-                    kinds.push("roundtrip");
-                }
-            }
-        }
+        let kinds = gen_stack(g, &mut vr, &mut vc, depth);
         g.count(&format!("nested.depth={}", depth));
         g.count(&format!("nested.{}", kinds.join("_of_")));
         if g.rng.chance(1, 4) {
             g.op("mmap".to_string());
         }
         gen_queries(g, vr, vc, "nested", false);
+    }
+}
+
+/// compositions of views over one part of a partition (`@ pmatrix`)
+fn gen_part_views(g: &mut Gen) {
+    let rounds = if g.thorough { 8000 } else { 320 };
+    for round in 0..rounds {
+        let large = round % 8 == 7;
+        let (rows, cols) = if large { (g.rng.range(6, 10), g.rng.range(6, 10)) } else { (g.rng.range(1, 4), g.rng.range(1, 5)) };
+        let cuts = |g: &mut Gen, n: usize| -> Vec<usize> {
+            // an ascending list of distinct boundaries in 0..=n, at most 4 of them
+            let mut v: Vec<usize> = (0..=n).filter(|_| g.rng.chance(1, 3)).collect();
+            v.truncate(4);
+            v
+        };
+        let (rp, cp) = (cuts(g, rows), cuts(g, cols));
+        let mut rb = rp.clone();
+        rb.push(rows);
+        let mut cb = cp.clone();
+        cb.push(cols);
+        // mostly a non-empty part
+        let (mut kr, mut kc) = (0, 0);
+        for attempt in 0..4 {
+            kr = g.rng.below(rp.len() + 1);
+            kc = g.rng.below(cp.len() + 1);
+            let empty = rb[kr] == if kr == 0 { 0 } else { rb[kr - 1] } || cb[kc] == if kc == 0 { 0 } else { cb[kc - 1] };
+            if !empty || (attempt == 0 && g.rng.chance(1, 8)) {
+                break;
+            }
+        }
+        let pr = rb[kr] - if kr == 0 { 0 } else { rb[kr - 1] };
+        let pc = cb[kc] - if kc == 0 { 0 } else { cb[kc - 1] };
+        let (pr, pc) = if pr == 0 || pc == 0 { (0, 0) } else { (pr, pc) };
+        let fill = if g.rng.chance(1, 6) { *g.rng.pick(&["zero", "const", "parity"]) } else { "id" };
+        g.op(format!("@ pmatrix {} {} {} {} {} {} fill={}", rows, cols, show_usizes(&rp), show_usizes(&cp), kr, kc, fill));
+        g.count("part_view");
+        g.count(if pr == 0 { "part_view.empty_part" } else if (pr, pc) == (rows, cols) { "part_view.whole_matrix" } else { "part_view.proper_part" });
+        if large {
+            g.count("part_view.large");
+        }
+        let (mut vr, mut vc) = (pr, pc);
+        let depth = g.rng.below(4);
+        if depth == 0 {
+            gen_queries(g, vr, vc, "part", !large);
+            continue;
+        }
+        let kinds = gen_stack(g, &mut vr, &mut vc, depth);
+        g.count(&format!("part_view.depth={}", depth));
+        g.count(&format!("part_view.{}", kinds.join("_of_")));
+        if g.rng.chance(1, 4) {
+            g.op("mmap".to_string());
+        }
+        gen_queries(g, vr, vc, "part_view", false);
     }
 }
 
@@ -1942,5 +2043,6 @@ pub fn gen(g: &mut Gen) {
     gen_ranges(g);
     gen_nested(g);
     gen_partitions(g);
+    gen_part_views(g);
     let _ = bset(1);
 }
